@@ -32,6 +32,10 @@ Init == /\ i = 0
         /\ cnt = [k \in Kinds |-> 0]
 
 V(line, kind) == [line |-> line, kind |-> kind]
+\* optional fields: an event kind that has no use for a field may omit it
+IsDirty(e) == "dirty" \in DOMAIN e /\ e.dirty
+WriterOf(e) == IF "w" \in DOMAIN e THEN e.w ELSE 0
+BufOf(e) == IF "buf" \in DOMAIN e THEN e.buf ELSE 0
 AddIf(s, c, v) == IF c THEN Append(s, v) ELSE s
 
 Step ==
@@ -39,7 +43,7 @@ Step ==
     /\ LET e == Trace[i + 1]
            n == i + 1
            r == e.r
-           b == e.buf
+           b == BufOf(e)
        IN
        /\ i' = n
        /\ cnt' = [cnt EXCEPT ![e.ev] = @ + 1]
@@ -55,8 +59,8 @@ Step ==
                  /\ hr' = HGet(hr, r, b)
                  /\ viol' = AddIf(AddIf(AddIf(AddIf(viol,
                                 ~GetLegal(hr, r, b), V(n, "ExclusiveBuffer.AcquireWhileHeld")),
-                                e.dirty, V(n, "NoCarryOver.DirtyAcquire")),
-                                CheckWriter /\ e.w # 0 /\ e.w # r, V(n, "NoCarryOver.WrongWriter")),
+                                IsDirty(e), V(n, "NoCarryOver.DirtyAcquire")),
+                                CheckWriter /\ WriterOf(e) # 0 /\ WriterOf(e) # r, V(n, "NoCarryOver.WrongWriter")),
                                 Holds(hr, r), V(n, "OneOwner.SecondAcquire"))
                  /\ UNCHANGED <<hb, active>>
             [] e.ev = "existing" ->                                  \* GetBuffer: the writer already is a *Buffer
@@ -73,13 +77,13 @@ Step ==
                  /\ hb' = HGet(hb, r, b)
                  /\ viol' = AddIf(AddIf(viol,
                                 ~GetLegal(hb, r, b), V(n, "ExclusiveBuffer.BytesAcquireWhileHeld")),
-                                e.dirty, V(n, "NoCarryOver.DirtyBytesBuffer"))
+                                IsDirty(e), V(n, "NoCarryOver.DirtyBytesBuffer"))
                  /\ UNCHANGED <<hr, active>>
             [] e.ev = "put" ->                                       \* templ.ReleaseBuffer: Reset + Put
                  /\ hb' = HDrop(hb, r, b)
                  /\ viol' = AddIf(AddIf(viol,
                                 ~UseLegal(hb, r, b), V(n, "ExclusiveBuffer.BytesReleaseNotHeld")),
-                                e.dirty, V(n, "NoCarryOver.PutWithoutReset"))
+                                IsDirty(e), V(n, "NoCarryOver.PutWithoutReset"))
                  /\ UNCHANGED <<hr, active>>
 
 Next == Step
